@@ -1,3 +1,5 @@
 import Cql.Audit
 import Cql.Props.C16
+import Cql.Props.C16Close
 #audit_namespace Cql.Props.C16
+#audit_namespace Cql.Props.C16Close
